@@ -33,6 +33,9 @@ TakeNone == UNCHANGED where
 Shuffle == UNCHANGED where
 
 Finish(i) == i \in DOMAIN where /\ where[i] = "running" /\ where' = Place(i, "done")
+(* the body of task i panicked: it was taken and has run (once); it is over.  The tasks accepted *)
+(* besides it are owed their execution all the same (Final).                                      *)
+Abort(i) == i \in DOMAIN where /\ where[i] = "running" /\ where' = Place(i, "done")
 
 (* reported number of queued tasks (WorkStealingQueue::len, total_queued) when no call is in flight *)
 QueuedIs(n) == n = Cardinality(Ids("queued")) /\ UNCHANGED where
@@ -45,4 +48,29 @@ Final(queued, idle, executed, pending) ==
     /\ queued = 0 /\ idle
     /\ executed = Cardinality(Ids("done"))
     /\ UNCHANGED where
+
+(* ClosureTask builders: the task reports what with_priority / with_stealable /                    *)
+(* with_estimated_duration were given (the scheduler reads exactly these three)                     *)
+TaskAttrs(prio, stealable, dur, gotPrio, gotStealable, gotDur) ==
+    /\ gotPrio = prio /\ gotStealable = stealable /\ gotDur = dur
+    /\ UNCHANGED where
+
+(* one bulk run as ONE event (thousands of tasks, counted by per-task execution counters): task i  *)
+(* was offered to submit / submit_closure, accepted[i] is whether the call returned Ok, execs[i]    *)
+(* how often its body ran until every accepted task had run or nothing had happened for the grace   *)
+(* period.  Accepted: exactly once.  Refused (all queues full): never.  Then the executor is idle.  *)
+Bulk(n, accepted, execs, queued, idle, executed) ==
+    /\ Len(accepted) = n /\ Len(execs) = n
+    /\ \A i \in 1..n : execs[i] = IF accepted[i] THEN 1 ELSE 0
+    /\ queued = 0 /\ idle
+    /\ executed = Cardinality({ i \in 1..n : accepted[i] })
+    /\ UNCHANGED where
+
+(* init_concurrency(config): a zero max_fibers / queue_size must be refused (documented); anything *)
+(* else may be refused or accepted                                                                   *)
+InitOk(maxFibers, queueSize, ok) ==
+    /\ (maxFibers = 0 \/ queueSize = 0) => ~ok
+    /\ UNCHANGED where
+(* WorkStealingExecutor::global() after a successful init: there is an executor *)
+GlobalIs(initialised, present) == (initialised => present) /\ UNCHANGED where
 =============================================================================
